@@ -162,6 +162,9 @@ func c09Programs(tier string) []c09prog {
 		// anonymous structs: supported by some plugins, refused by others
 		{"anon-struct-empty", "struct{}", true}, {"anon-struct-one-field", "struct{ X int }", true}, {"anon-struct-two-fields", "struct {\n\tX int\n\tY string\n}", true},
 		{"anon-struct-with-slice", "struct{ S []int }", false},
+		// nothing but blank fields: comparable padding, and a blank field that makes the struct incomparable
+		{"anon-struct-blank-only", "struct{ _ int32 }", true}, {"anon-struct-blank-slice-only", "struct{ _ []int }", false},
+		{"anon-struct-blank-and-slice", "struct {\n\t_ int\n\tS []int\n}", false},
 	}
 	type shape struct {
 		pos  string
